@@ -284,7 +284,10 @@ Definition e_samples (h : hctx) (ps : list (list N)) : option (list (list N) * l
       end
   end.
 
-Definition read_eager (h : hctx) (line : list N) : option vrec :=
+(* parse_record_buf, with the samples parser [smp] as a parameter (parse_samples on a fresh buffer:
+   [e_samples]; on a reused RecordBuf: [e_samples_into]) *)
+Definition read_eager_gen (smp : list (list N) -> option (list (list N) * list (list (option value))))
+  (h : hctx) (line : list N) : option vrec :=
   let ps := split_all 9 line in
   match parse_position (fld ps 1) with None => None | Some pos =>
   match e_list 59 true true (fld ps 2) with None => None | Some ids =>
@@ -297,10 +300,53 @@ Definition read_eager (h : hctx) (line : list N) : option vrec :=
               end) with None => None | Some qual =>
   match e_list 59 false true (fld ps 6) with None => None | Some filters =>
   match e_info h (fld ps 7) with None => None | Some info =>
-  match e_samples h ps with None => None | Some (ks, rows) =>
+  match smp ps with None => None | Some (ks, rows) =>
     Some {| r_chrom := fld ps 0; r_pos := pos; r_ids := ids; r_ref := rf; r_alts := alts;
             r_qual := qual; r_filters := filters; r_info := info; r_keys := ks; r_samples := rows |}
   end end end end end end end end.
+
+Definition read_eager (h : hctx) (line : list N) : option vrec := read_eager_gen (e_samples h) h line.
+
+(* REUSE of a RecordBuf (read_record_buf called again with the same buffer, the record_bufs()
+   iterator): every fixed column is cleared or overwritten before it is filled; the samples keep
+   their vectors: parse_samples clears the keys and EVERY value vector, resizes to the header's
+   sample count and parse_values pushes onto the vector it is given.  [prev] = the value vectors
+   the buffer holds from the previous record. *)
+Definition resize_rows (n : nat) (rows : list (list (option value))) : list (list (option value)) :=
+  firstn n rows ++ repeat [] (n - length rows).
+
+Fixpoint e_rows_into (bufs : list (list (option value))) (ds : list fdef) (cols : list (list N))
+  : option (list (list (option value))) :=
+  match bufs with
+  | [] => Some []
+  | b :: bufs' =>
+      match parse_sample_eager prs_float ds (hd [] cols), e_rows_into bufs' ds (tl cols) with
+      | Some row, Some rest => Some ((b ++ row) :: rest)      (* values.push on the given vector *)
+      | _, _ => None
+      end
+  end.
+
+Definition e_samples_into (prev : list (list (option value))) (h : hctx) (ps : list (list N))
+  : option (list (list N) * list (list (option value))) :=
+  match h_nsamples h with
+  | O => match skipn 8 ps with
+         | [] | [[]] => Some ([], [])                         (* genotypes.values.clear() *)
+         | _ => None
+         end
+  | n =>
+      let cleared := map (fun _ => []) prev in                (* for values in &mut values { clear } *)
+      match e_keys (fld ps 8) with
+      | Some ks =>
+          match e_rows_into (resize_rows n cleared) (map (fdef_of h) ks) (skipn 9 ps) with
+          | Some rows => Some (ks, rows)
+          | None => None
+          end
+      | None => None
+      end
+  end.
+
+Definition read_eager_into (prev : vrec) (h : hctx) (line : list N) : option vrec :=
+  read_eager_gen (e_samples_into (r_samples prev) h) h line.
 
 (* ---------------------------------------------------------------------------------------- *)
 (* the lazy reader: read_record + Fields + the views, every accessor forced *)
